@@ -12,7 +12,10 @@ registry; the first word of the sequence label selects it (`keys`, `topics`, `bi
 `irs`, `claims`, `hooks`, `rules`), every op line is prefixed with the same word.
 `op` runs the MODEL (OZ.Model.Reg*); `mon` recomputes the plain set / map / relation from the
 accepted operations only and compares every getter of the IMPLEMENTATION with it (it never
-calls a model transition function).
+calls a model transition function). The eight sub-monitors are `checkCore` functions on parsed
+values in OZ/Model/Reg*Mon.lean (the sub-drivers only parse), each proved silent on every trace of
+its model in OZ/Props/C20aMon..C20hMon (`monitor_accepts_every_model_trace`); the idle comparison
+below works on the raw words of two consecutive observation lines and is not part of those theorems.
 
 `<registry> idle days=<n>` moves the ledger on by `n` days (17 280 ledgers each) WITHOUT touching
 the contract; it is handled here for all registries: the model state stays as it is (the context
@@ -38,14 +41,14 @@ inductive St where
 
 inductive Mn where
   | none
-  | keys (g : Keys.Mon)
-  | topics (g : Topics.Mon)
-  | binder (g : Binder.Mon)
-  | docs (g : Docs.Mon)
-  | irs (g : Irs.Mon)
-  | claims (g : Claims.Mon)
-  | hooks (g : Hooks.Mon)
-  | rules (g : Rules.Mon)
+  | keys (g : Keys.MonT)
+  | topics (g : Topics.MonT)
+  | binder (g : Binder.MonT)
+  | docs (g : Docs.MonT)
+  | irs (g : Irs.MonT)
+  | claims (g : Claims.MonT)
+  | hooks (g : Hooks.MonT)
+  | rules (g : Rules.MonT)
 
 def initSt (label : String) : St :=
   let ws := words label
